@@ -67,7 +67,7 @@ if os.path.exists(os.path.join(work, "trace_mig.txt")):
     traces.append(os.path.join(work, "trace_mig.txt"))
 else:
     alarms.add("ALL:harness-crash-miggrid")
-g = subprocess.run([HBIN, "bfs", "--scope", "all", "--max-states", "700", "--threads", "4", "--out", work],
+g = subprocess.run([HBIN, "bfs", "--scope", "all", "--max-states", "600", "--walks", "40", "--walk-depth", "10", "--seed", "7", "--threads", "4", "--out", work],
                    stdout=subprocess.PIPE, stderr=subprocess.STDOUT, text=True)
 if g.returncode != 0:
     alarms.add("ALL:harness-crash-bfs")
